@@ -127,6 +127,15 @@ def returned_constant(ret):
     return None
 
 
+def returned_constant_expr(e):
+    e = e.strip()
+    if e.k == "DeclRefExpr" and e.j.get("dk") == "enum":
+        return e.j["name"]
+    if e.k == "IntegerLiteral":
+        return e.j.get("val")
+    return None
+
+
 def returns_of_constant(fn, name):
     """returns of the constant, including those of virtually inlined helpers (whose value the caller hands on)"""
     return [r for r in fn.returns(inlined=True) if returned_constant(r) == name]
